@@ -228,6 +228,12 @@ def fantasy_covariance(S, lik, cfg):
     fantasy(S, 2, 1, 2, lik, cfg, "plain", 1)
 
 
+def hetero_noise_floor(S, index, bound):
+    """the noise a HeteroskedasticNoise model adds (incl. the noise_indices option) is at least its constraint's lower bound, see C12"""
+    from .C12 import hetero_indices
+    hetero_indices(S, 2, 2, index, bound)
+
+
 def fixed_noise(S, n):
     mn = float(gpytorch.settings.min_fixed_noise.value(torch.float64))
     noise = torch.tensor([0.3, 1e-9, 0.05][:n])
@@ -265,6 +271,8 @@ def scenarios(tier, seed):
     add("min_variance", n=3, negative=True)
     add("fixed_noise", n=3)
     add("floors_per_dtype")
+    add("hetero_noise_floor", index=1, bound=0)
+    add("hetero_noise_floor", index=0, bound=0.3)
     add("fantasy_covariance", lik="fixed", cfg={"fpv": False, "detach": True})
     add("fantasy_covariance", lik="fixed_learn", cfg={"fpv": True, "detach": True})
     return out
